@@ -679,8 +679,8 @@ func RenderVal(v *m.Val) string {
 	return "?"
 }
 
-// YaeTypeString renders a type the way yae's type printer does (written
-// field order), needed only inside optional renderings.
+// YaeTypeString renders a type the way yae's type printer does (object
+// fields in sorted order), needed only inside optional renderings.
 func YaeTypeString(t *m.Type) string {
 	switch t.K {
 	case m.TNum, m.TStr, m.TBool, m.TTime:
@@ -698,6 +698,7 @@ func YaeTypeString(t *m.Type) string {
 		for i, f := range t.F {
 			xs[i] = f.Name + ": " + YaeTypeString(f.T)
 		}
+		sort.Strings(xs) // canonical: independent of the written field order
 		return "{" + strings.Join(xs, ", ") + "}"
 	}
 	return t.String()
